@@ -5,7 +5,10 @@
      - a statement that pushes a context does not increase it ([process_stmt_shape]),
      - a finished statement followed by `advance` decreases it by at least 1 ([advance_decreases]),
    hence ([process_action_no_hang]) process_action with fuel f never returns Hang when the total potential of the queue is below f and
-   the blocks are nested less than 8 deep.  P bounds the length of every plug list a foreach walks. *)
+   the blocks are nested less than 8 deep.  P bounds the length of every plug list a foreach walks.
+   The computable definitions (cost, costs, depth, depths, itr, hc, hcs, Phi, Psi_l) live in Model/DeviceFuel.v: the model's loop fuel is
+   Model/Device.pa_fuel d = 2 + Psi_l (number of plugs of d) (queue of d), so ([post_poll_one_no_hang], section Pass) the pass never hangs;
+   Proofs/DeviceHang.v turns the side conditions (DPL) into an invariant.  [nest_ok] = the static nesting hypothesis (end of file). *)
 From Coq Require Import List NArith ZArith Bool Lia.
 From PM Require Import Base.Bytes Base.Outcome Base.Dec Gen.GenConsts Gen.GenCbuf Model.ScriptAst Model.Enqueue Model.Script Model.DeviceFuel Model.Device
   Proofs.DeviceProofs Proofs.DeviceStmt Proofs.DeviceStmtG Proofs.DeviceInv Proofs.DeviceInvG Proofs.DeviceMask.
